@@ -1568,3 +1568,85 @@ Proof. exists (Some (TyList [TString; TNull])), KNull. vm_compute. repeat split.
 
 Lemma length_negative_absent_type_is_string_only : string_only (length_request_type None) = true.
 Proof. reflexivity. Qed.
+
+(* ====================================================================== *)
+(* Part 7: magnitude - the kernel is exact for integers of any size        *)
+(* ====================================================================== *)
+
+Lemma cmgt_lt y m : 0 < m -> closest_multiple_greater_than y m < y + m.
+Proof.
+  intros Hm. unfold closest_multiple_greater_than.
+  destruct (y mod m =? 0) eqn:E; [lia|].
+  apply Z.eqb_neq in E.
+  pose proof (Z.div_mod y m ltac:(lia)) as Hd.
+  pose proof (Z.mod_pos_bound y m Hm) as Hb.
+  lia.
+Qed.
+
+Lemma cmgt_least_multiple : forall y x, 0 < x ->
+  least_multiple_at_least y x (closest_multiple_greater_than y x) = true.
+Proof.
+  intros y x Hx. unfold least_multiple_at_least.
+  pose proof (cmgt_ge y x Hx). pose proof (cmgt_lt y x Hx). pose proof (cmgt_mod y x Hx) as Hmod.
+  rewrite Hmod.
+  replace (y <=? closest_multiple_greater_than y x) with true by (symmetry; apply Z.leb_le; lia).
+  replace (closest_multiple_greater_than y x <? y + x) with true by (symmetry; apply Z.ltb_lt; lia).
+  reflexivity.
+Qed.
+
+(* the window [y, y + x) holds exactly one multiple of x *)
+Lemma least_multiple_unique : forall y x r r', 0 < x ->
+  least_multiple_at_least y x r = true -> least_multiple_at_least y x r' = true -> r = r'.
+Proof.
+  intros y x r r' Hx H1 H2. unfold least_multiple_at_least in *.
+  apply andb_prop in H1 as [H1 M1]. apply andb_prop in H1 as [L1 U1].
+  apply andb_prop in H2 as [H2 M2]. apply andb_prop in H2 as [L2 U2].
+  apply Z.leb_le in L1, L2. apply Z.ltb_lt in U1, U2. apply Z.eqb_eq in M1, M2.
+  pose proof (Z.div_mod r x ltac:(lia)) as D1. pose proof (Z.div_mod r' x ltac:(lia)) as D2.
+  rewrite M1 in D1. rewrite M2 in D2.
+  assert (r / x = r' / x) by nia.
+  congruence.
+Qed.
+
+Lemma cmgt_characterised : forall y x r, 0 < x ->
+  (least_multiple_at_least y x r = true <-> r = closest_multiple_greater_than y x).
+Proof.
+  intros y x r Hx. split.
+  - intros H. exact (least_multiple_unique y x _ _ Hx H (cmgt_least_multiple y x Hx)).
+  - intros ->. exact (cmgt_least_multiple y x Hx).
+Qed.
+
+(* the minimum value planned for a lower bound with a step, and the near-boundary value one step above it, are
+   multiples at or above that lower bound, whatever its size *)
+Lemma cmgt_minimum_value_valid : forall minimum m, 0 < m ->
+  let v := closest_multiple_greater_than minimum m in minimum <= v /\ v mod m = 0 /\ (v + m) mod m = 0.
+Proof.
+  intros minimum m Hm v. subst v. repeat split.
+  - exact (cmgt_ge minimum m Hm).
+  - exact (cmgt_mod minimum m Hm).
+  - replace (closest_multiple_greater_than minimum m + m) with (closest_multiple_greater_than minimum m + 1 * m) by lia.
+    rewrite Z.mod_add by lia. exact (cmgt_mod minimum m Hm).
+Qed.
+
+(* the sentinel: true division rounds the quotient to 53 bits before the ceil *)
+Lemma float53_refuted :
+  closest_multiple_float53 (2 ^ 53 + 1) 1 = 2 ^ 53
+  /\ closest_multiple_float53 1000000000000000001 10 = 1000000000000000000
+  /\ closest_multiple_float53 (2 ^ 63 - 1) 3 = 2 ^ 63 - 512
+  /\ closest_multiple_float53 (- (2 ^ 63) + 1) 3 = - (2 ^ 63) + 512
+  /\ least_multiple_at_least (2 ^ 53 + 1) 1 (closest_multiple_float53 (2 ^ 53 + 1) 1) = false
+  /\ least_multiple_at_least 1000000000000000001 10 (closest_multiple_float53 1000000000000000001 10) = false
+  /\ closest_multiple_greater_than (2 ^ 53 + 1) 1 = 2 ^ 53 + 1
+  /\ closest_multiple_greater_than 1000000000000000001 10 = 1000000000000000010.
+Proof. vm_compute. repeat split. Qed.
+
+Definition float53_agrees_on (ys xs : list Z) : bool :=
+  forallb (fun y => forallb (fun x => closest_multiple_float53 y x =? closest_multiple_greater_than y x) xs) ys.
+
+Lemma float53_agrees_small_grid : float53_agrees_on (zrange (-400) 801) (zrange 1 60) = true.
+Proof. vm_compute. reflexivity. Qed.
+
+(* just below 2^53 the two kernels still agree (x = 1: the quotient is the integer itself) *)
+Lemma float53_agrees_below_2_53 :
+  float53_agrees_on (zrange (2 ^ 53 - 40) 41 ++ zrange (- (2 ^ 53)) 41) [1; 3; 10; 1048576] = true.
+Proof. vm_compute. reflexivity. Qed.
